@@ -12,7 +12,7 @@ PID = "C11"
 RULE = ("a case is one dataclass C over {int,float,str,bool,enum,List[T],Tuple[T,..],Tuple[T,...]} registered at n destinations "
         "under ALWAYS_MERGE in one of three shapes (flat: C at d0..d{n-1}; wrapped: P{m:C} at n destinations, with/without a "
         "default_factory and an own field of P; siblings: S{m0..m{k-1}:C} at r destinations, n=r*k, per-member default "
-        "instances), with 1-3 fields, defaults incl. containers whose length equals n, and a command line giving each "
+        "instances; flat also with add_arguments(default=instance) at every destination), with 1-3 fields, defaults incl. containers whose length equals n, and a command line giving each "
         "field absent / 0..n+1 tokens (container tokens bare, quoted-blank-separated, comma, [..] and (..) forms; valid and "
         "invalid words). A systematic sweep n x field type x value count x default length is enumerated in both tiers, "
         "random multi-field cases on top; unit cases drive _parse_multiple_containers, FieldWrapper.__call__ "
@@ -29,18 +29,20 @@ TRUSTED = ["stdlib argparse and ast.literal_eval", "harness rendering of structu
            "(re-checked against the model's Tok.render in op merge.tok)"]
 EXHAUSTIVE = {"quick": False, "thorough": False}
 MANIFEST = {
-    "text": ("Proof (partial, two named gaps). Lean theorems over the model of the reused FieldWrapper, for every n >= 2 (no "
-             "bound): option absent -> every destination gets its own default (scalar fields fully; container fields unless "
-             "the field-level default is a list of length n, D12); one value -> every destination gets it; n values -> the "
-             "i-th destination gets the i-th value in registration order; any other count (incl. 0 with the option present) "
-             "-> InconsistentArgumentError; list/tuple fields receive whole containers whenever every token parses to a "
-             "container (everything except a bare Python-literal word, D13). Both gaps are kept visible as refuted full "
-             "statements with witnesses. DataclassWrapper.merge keeps destinations in registration order (any n). The model "
-             "is tied to the code by five correspondence ops and the three-case rule is evaluated on every real parse."),
+    "text": ("Proof (full for the modelled configurations; one open finding outside them). Lean theorems over the model of the "
+             "reused FieldWrapper, for every n >= 2 (no bound) and every field type (scalar, List, Tuple): option absent -> "
+             "every destination gets the dataclass default whole (any default, a list/tuple of any length incl. n), or its own "
+             "default instance's value when the destinations carry default instances; one value -> every destination gets it; "
+             "n values -> the i-th destination gets the i-th value in registration order; any other count (incl. 0 with the "
+             "option present) -> InconsistentArgumentError; every token of a list/tuple field is one whole container (a bare "
+             "item is a one-element container), so destinations never receive elements. DataclassWrapper.merge keeps "
+             "destinations and default instances in registration order (any n). The model is tied to the code by five "
+             "correspondence ops and the three-case rule is evaluated on every real parse."),
     "note": ("Trusted: Lean kernel + propext/Classical.choice/Quot.sound; stdlib argparse and ast.literal_eval (their effect on "
              "the structured token shapes is modelled, not verified); the harness. Modelled not verified: conflicts.py:317-354, "
-             "dataclass_wrapper.py:422-445, field_wrapper.py:168-229,354-458,711-821, utils.py:617-723. Mixed nesting levels "
-             "(the class both at top level and as a member) are checked end-to-end only (open finding)."),
+             "dataclass_wrapper.py:255-275,422-445, field_wrapper.py:168-229,354-458,711-821, utils.py:617-723. Mixed nesting "
+             "levels (the class both at top level and as a member) are checked end-to-end only (open finding); default "
+             "instances at only some destinations are checked by correspondence only."),
     "technique": "Lean 4 induction/arith over n and token lists + differential correspondence on real ALWAYS_MERGE parsers",
     "design_ref": "DESIGN.md section 5, C11",
 }
@@ -179,6 +181,10 @@ def n_of(c):
 def dest_default(c, fi, j):
     """the dataclass default of field fi at destination j (a V, or None when there is none)"""
     f = c["fields"][fi]
+    if c["shape"] == "flat" and c.get("reg_mask") and c["reg_mask"][j] and f.get("reg_overrides"):
+        ov = f["reg_overrides"][j]
+        if ov is not None:
+            return ov
     if c["shape"] == "siblings" and c.get("member_default") and f.get("overrides"):
         ov = f["overrides"][j % c["k"]]
         if ov is not None:
@@ -189,6 +195,10 @@ def dest_default(c, fi, j):
 def src_of(c, fi):
     """where FieldWrapper.default takes the un-packaged default from (checked against the code by op merge.pack)"""
     f = c["fields"][fi]
+    if c["shape"] == "flat" and c.get("reg_mask") and c["reg_mask"][0]:
+        # `add_arguments(C, dest, default=inst)`: the merged wrapper carries the instances that were given — when the
+        # FIRST registration has one (otherwise `self.defaults.extend` works on a temporary list and all are dropped)
+        return {"k": "parents", "vs": [dest_default(c, fi, j) for j in range(c["r"]) if c["reg_mask"][j]]}
     if c["shape"] == "flat" or not c.get("member_default"):
         return {"k": "field", "v": f["default"]}
     return {"k": "parents", "vs": [dest_default(c, fi, j) for j in range(n_of(c))]}
@@ -226,7 +236,12 @@ def build_parser(c):
     parser = sp.make_parser({"cr": "ALWAYS_MERGE"})
     top = U.classes["C"] if c["shape"] == "flat" else U.classes["P"]
     for a in range(c["r"]):
-        parser.add_arguments(top, dest=f"d{a}")
+        if c["shape"] == "flat" and c.get("reg_mask") and c["reg_mask"][a]:
+            kw = {f["name"]: U.val(f["reg_overrides"][a]) for f in c["fields"]
+                  if f.get("reg_overrides") and f["reg_overrides"][a] is not None}
+            parser.add_arguments(top, dest=f"d{a}", default=top(**kw))
+        else:
+            parser.add_arguments(top, dest=f"d{a}")
     return parser, U
 
 
@@ -353,11 +368,11 @@ def impl(case):
         cc = dict(c["shape_case"], argv=[])
         try:
             parser, U = build_parser(cc)
-            parser._preprocessing(args=[])
+            flat = parser._conflict_resolver.resolve_and_flatten(parser._wrappers.copy())
         except BaseException as e:  # noqa: BLE001
             return {"o": "raise", "exc": type(e).__name__}
         root_cls = U.classes[c["root_cls"]]
-        ws = [w for w in parser._wrappers if w.dataclass is root_cls and w.multiple]
+        ws = [w for w in flat if w.dataclass is root_cls and w.multiple]
         if len(ws) != 1:
             return {"o": "raise", "exc": f"{len(ws)} merged wrappers of {c['root_cls']}"}
 
@@ -414,7 +429,7 @@ def model_case(case, obs):
         cc = c["shape_case"]
         return {"n": n_of(cc), "ty": cc["fields"][c["fi"]]["ty"], "src": src_of(cc, c["fi"])}
     if op == "merge.dests":
-        return {"first": c["first"], "others": c["others"]}
+        return {"root": c["root"], "first": c["first"], "others": c["others"]}
     return c
 
 
@@ -461,14 +476,6 @@ def _expect_field(c, fi, occ):
         invalid = False
     except Invalid:
         vals, invalid = None, True
-    alts = []
-    # reading B: several bare words of a container field may also be read as ONE container (argparse style)
-    if is_container(ty) and len(toks) >= 2 and all(t["k"] == "bare" for t in toks):
-        try:
-            whole = spec_container(ty, [t["w"] for t in toks])
-            alts.append(("ok", [[whole] * n]))
-        except Invalid:
-            alts.append(("skip",))
     if invalid:
         return ("skip",)
     k = len(toks)
@@ -480,11 +487,7 @@ def _expect_field(c, fi, occ):
         main = ("reject", {"InconsistentArgumentError", "exit2"})
     else:
         main = ("reject", {"InconsistentArgumentError"})
-    if not alts:
-        return main
-    if alts[0][0] == "skip":
-        return ("skip",)
-    return ("either", main, alts[0])
+    return main
 
 
 def oracle(case, obs):
@@ -585,76 +588,6 @@ def oracle_mixed(c, obs):
 # open findings: narrow signatures
 
 
-def _d12(case, obs, fail):
-    """field-level list default whose length equals n, option absent: destination j receives element j"""
-    if case["op"] != "merge.run" or fail.get("clause") not in ("whole-container", "absent") or fail.get("given") is not None:
-        return False
-    c = case["case"]
-    f = c["fields"][fail["field"]]
-    n = n_of(c)
-    src = src_of(c, fail["field"])
-    d = f["default"]
-    if f["ty"]["k"] != "list" or src["k"] != "field" or d is None or d.get("t") != "list" or len(d["v"]) != n:
-        return False
-    return obs["o"] == "ok" and obs["v"][fail["field"]] == d["v"]
-
-
-def _d13_value(ty, w):
-    """what a destination receives for a bare literal word under D13 (None = not predictable here)"""
-    it = ty["item"] if ty["k"] in ("list", "vtuple") else ty["items"][0]
-    k = it["k"]
-    if k == "str":
-        bare = {"t": "str", "v": w}
-        return bare if ty["k"] == "list" else {"t": "tuple", "v": [{"t": "str", "v": ch} for ch in w]}
-    if ty["k"] != "list":
-        return None  # tuple(4) raises TypeError instead
-    if k == "int" and re.fullmatch(r"-?[0-9]+", w):
-        return {"t": "int", "v": str(int(w))}
-    if k == "float" and LIT_RE.match(w):
-        return {"t": "float", "v": repr(float(w))}
-    if k == "bool" and w in ("True", "False"):
-        return {"t": "bool", "v": w == "True"}
-    return None
-
-
-def _d13(case, obs, fail):
-    """a bare Python-literal word given to a list/tuple field arrives as the bare item (or tuple(item)), not as a container"""
-    if case["op"] != "merge.run":
-        return False
-    c = case["case"]
-    n = n_of(c)
-    occs = {o["f"]: o for o in c["argv"]}
-    if fail.get("clause") in ("outcome", "other-count") and fail.get("got") != "ok":
-        # tuple(4) → TypeError: some tuple field was given a bare literal non-str word, with a count the code accepts
-        if fail.get("got") != "TypeError":
-            return False
-        for fi, o in occs.items():
-            ty = c["fields"][fi]["ty"]
-            if ty["k"] in ("tuple", "vtuple") and len(o["toks"]) in (1, n):
-                it = ty["item"] if ty["k"] == "vtuple" else ty["items"][0]
-                if it["k"] != "str" and any(t["k"] == "bare" and is_literal_word(t["w"]) and not
-                                            (it["k"] == "bool" and t["w"] not in ("True", "False")) for t in o["toks"]):
-                    return True
-        return False
-    if fail.get("clause") not in ("whole-container", "one", "n-values") or "field" not in fail or obs["o"] != "ok":
-        return False
-    fi = fail["field"]
-    ty = c["fields"][fi]["ty"]
-    o = occs.get(fi)
-    if o is None or not is_container(ty):
-        return False
-    toks = o["toks"]
-    if len(toks) not in (1, n):
-        return False
-    for j in fail["dests"]:
-        t = toks[j if len(toks) == n else 0]
-        if t["k"] != "bare" or not is_literal_word(t["w"]):
-            return False
-        if obs["v"][fi][j] != _d13_value(ty, t["w"]):
-            return False
-    return True
-
-
 def _mixed(case, obs, fail):
     """the class registered both at top level and as a nested member: set-up crashes (nested first) or the nested
     destination is written to a stray dotted namespace attribute (top-level first)"""
@@ -670,7 +603,7 @@ def _mixed(case, obs, fail):
     return False
 
 
-FINDINGS = {"C11-D12-list-default-len-n": _d12, "C11-D13-bare-literal-token": _d13, "C11-mixed-levels": _mixed}
+FINDINGS = {"C11-mixed-levels": _mixed}
 
 
 # ------------------------------------------------------------------------------------------------
@@ -822,7 +755,26 @@ def random_cases(rng, tier):
                 cnt = rng.choice([x for x in range(2, n + 2) if x != n])
             argv.append({"f": fi, "toks": [_fix_len(rand_tok(rng, ty, 0.04)) for _ in range(cnt)]})
         own = shape != "flat" and rng.random() < 0.5 and not (shape == "siblings" and r > 1)
-        yield mk_case(shape, r, k, fields, argv, member_default=member_default, own=own)
+        case = mk_case(shape, r, k, fields, argv, member_default=member_default, own=own)
+        if shape == "flat" and rng.random() < 0.3:
+            add_reg_defaults(rng, case["case"], [True] * r)
+        yield case
+
+
+def add_reg_defaults(rng, c, mask):
+    """register destination a with `default=C(...)` where mask[a]; every field gets a value there (own or class default)"""
+    n = n_of(c)
+    c["reg_mask"] = list(mask)
+    for f in c["fields"]:
+        ovs = []
+        for a in range(c["r"]):
+            if not mask[a]:
+                ovs.append(None)
+            elif f["default"] is None or rng.random() < 0.7:
+                ovs.append(rand_default(rng, f["ty"], n))
+            else:
+                ovs.append(None)
+        f["reg_overrides"] = ovs
 
 
 def tok_cases(rng, tier):
@@ -891,6 +843,9 @@ def shape_cases(rng, tier):
             f["overrides"] = [rand_default(rng, ty, n) if rng.random() < 0.5 else None for _ in range(k)]
         own = shape != "flat" and rng.random() < 0.5
         sc = {"shape": shape, "r": r, "k": k, "member_default": member_default, "own": own, "fields": [f]}
+        if shape == "flat" and rng.random() < 0.5:
+            # default instances at all / some / one of the destinations (set-up only: op merge.pack)
+            add_reg_defaults(rng, sc, rng.choice([[True] * r, [rng.random() < 0.5 for _ in range(r)], [i == 0 for i in range(r)]]))
         if not (shape == "siblings" and r > 1 and own):
             # (with an own field on S the S wrappers merge first and the member order becomes member-major)
             yield {"op": "merge.pack", "case": {"shape_case": sc, "fi": 0}}
@@ -907,7 +862,8 @@ def dests_case(sc):
         return {"dests": [dest], "defaults": [idx] if md else [], "children": []}
 
     if shape == "flat":
-        trees = [{"dests": [f"d{a}"], "defaults": [], "children": []} for a in range(r)]
+        mask = sc.get("reg_mask") or [False] * r
+        trees = [{"dests": [f"d{a}"], "defaults": [a] if mask[a] else [], "children": []} for a in range(r)]
         root = "C"
     elif shape == "wrapped":
         if sc.get("own"):  # the first clash is on P's own field: P wrappers merge, children pairwise
@@ -928,7 +884,8 @@ def dests_case(sc):
         else:
             trees = [leaf(f"d{a}.m{b}", a * k + b) for a in range(r) for b in range(k)]
             root = "C"
-    return {"op": "merge.dests", "case": {"shape_case": sc, "root_cls": root, "first": trees[0], "others": trees[1:]}}
+    is_root = (shape == "flat") or (shape == "wrapped" and bool(sc.get("own")))   # registered directly with add_arguments
+    return {"op": "merge.dests", "case": {"shape_case": sc, "root_cls": root, "root": is_root, "first": trees[0], "others": trees[1:]}}
 
 
 def mixed_cases(rng, tier):
